@@ -601,6 +601,7 @@ FIELDS = [("tabs", canon_tabs), ("man", canon_manifest), ("cat", lambda x: x), (
 
 # reason tags computed by the model -> known-finding signatures (one mechanism each)
 TAG_SIGS = [
+    ("dv-file-exists", "delete:dv-file-reused-after-reopen"),
     ("dead:dv-of-unknown-table", "reopen:stale-dv-of-dropped-table"),
     ("new-rowset-under-stale-dv", "reopen:rowset-id-reissued-under-stale-dv"),
     ("id-shift", "reopen:view-shifts-table-id"),
@@ -663,6 +664,11 @@ def compare_hist(h, impl, model):
             if t:
                 tags.add(t)
         iout = i["out"]
+        if s["k"] == "delete" and iout == "err" and "File exists" in i.get("msg", ""):
+            # `create_new` of a delete-vector file that already exists: DV files are never unlinked and
+            # both id counters restarted (which DV id goes to which row-set is hash order in the
+            # implementation, so the model's own tag need not fire on the same statement)
+            tags.add("dv-file-exists")
         # --- model vs impl
         cnt["mi"] += 1
         diffs = []
@@ -806,7 +812,7 @@ def evaluate(ck, hists, impl, model, totals, samples):
                 predicted = ("tabs" in m and canon_tabs(m["tabs"]) == got) or (m.get("out") == got)
                 # once table ids have shifted, row-set files are read under another table's schema:
                 # the model does not define the values that come out, only that the state is wrong
-                if sig == "reopen:view-shifts-table-id":
+                if sig in ("reopen:view-shifts-table-id", "delete:dv-file-reused-after-reopen"):
                     predicted = True
                 if sig and predicted:
                     ck.report(sig, "%s: implementation has %s, a plain multiset of the acknowledged statements has %s "
@@ -820,7 +826,7 @@ def evaluate(ck, hists, impl, model, totals, samples):
             elif e[0] == "corr":
                 _, k, field, a, b = e
                 # a disagreement that is also a property failure is reported by the "prop" event
-                if any(x[0] == "prop" and x[1] == k for x in ev) and sig_of_tags(tags) in (None, "reopen:view-shifts-table-id"):
+                if any(x[0] == "prop" and x[1] == k for x in ev) and sig_of_tags(tags) in (None, "reopen:view-shifts-table-id", "delete:dv-file-reused-after-reopen"):
                     continue
                 found = any(x[0] == "prop" for x in ev)
                 ck.report("corr:%s:%s" % (h["steps"][k]["k"], field),
